@@ -290,7 +290,9 @@ class WorkerIteration(FnCheck):
     def callees(self, ex):
         def q_get(ex_, st, args, kwargs):
             st.ghost['dequeued'] = st.ghost.get('dequeued', 0) + 1
-            return [(st.fork(), Raise(ex_.mk_exc('queue.Empty', 'queue.get'))), (st.fork(), vstr('stop_sco')),
+            empty, stop = st.fork(), st.fork()
+            st.ghost['got_request'] = True
+            return [(empty, Raise(ex_.mk_exc('queue.Empty', 'queue.get'))), (stop, vstr('stop_sco')),
                     (st, V('tuple', py=(self.tid, self.op, vany(fresh(Val, 'request')), b_obj(st, 'operation_request'))))]
 
         def b_obj(st, name):
@@ -309,7 +311,16 @@ class WorkerIteration(FnCheck):
                 'time.sleep': Pure(lambda e, s, a, k: NONE)}
 
     def loops(self, ex):
-        return {0: LoopSpec(inv=None, havoc_heap=[])}
+        def end_of_iteration(ex_, st, env):
+            if env['_phase'] == 'preserve' and st.ghost.get('got_request'):
+                log = st.ghost.get('notify', ())
+                if all(e[4] == 'delivered' for e in log):
+                    # every report could be delivered: the request must have got its final state in this iteration
+                    ex_.oblige(st, 'dequeued_request_always_gets_a_final_state', z3.And(
+                        z3.BoolVal(len(log) == 3), is_final(log[2][1]) if len(log) == 3 else z3.BoolVal(False)), kind='loop',
+                        info={'notifications': len(log)})
+            return z3.BoolVal(True)
+        return {0: LoopSpec(inv=end_of_iteration, havoc_heap=[])}
 
     def post(self, ex, st0, st, outcome, b):
         if outcome[0] == 'exc':
@@ -325,6 +336,7 @@ class WorkerIteration(FnCheck):
             def on_loop_havoc(ex_, st, node):
                 st.ghost['notify'] = ()
                 st.ghost['executed'] = 0
+                st.ghost['got_request'] = False
         return H
 
     def finish(self, ex, st0, outcomes, b):
